@@ -142,3 +142,24 @@ Example C01_nonvacuous :
   wf_state s = ERROR /\ t_state (get_task s 0) = ERROR /\
   snd (step sp s (EDup (IResult 0 OOk))) = Internal.
 Proof. vm_compute. repeat split. Qed.
+
+(* REVERSE workflows (Model/Reverse.v, the model the real ReverseWorkflowController is compared with): over every
+   definition, target and sequence of continue / state-change operations, the tasks that exist are tasks the
+   target depends on, each has one execution, and everything an existing execution requires has succeeded ... *)
+Require Mistral.Model.Reverse Mistral.Proofs.ReverseProofs.
+Theorem C01_reverse_run_prescribed : forall sp target ops,
+  let rows := Reverse.rrun sp target ops in
+  NoDup (map Reverse.rrname rows) /\
+  (forall r, In r rows -> ReverseProofs.needs sp target (Reverse.rrname r)) /\
+  (forall r t q, In r rows -> Reverse.rfind sp (Reverse.rrname r) = Some t -> In q (Reverse.rreq t) ->
+     Reverse.succeeded rows q = true).
+Proof. exact ReverseProofs.run_invariant. Qed.
+Print Assumptions C01_reverse_run_prescribed.
+
+(* ... and no task the target depends on is forgotten: once everything it requires has succeeded it is among the
+   tasks started next (acyclic requires graphs) - a reverse run cannot stop short of its target while nothing failed *)
+Theorem C01_reverse_nothing_forgotten : forall sp rows target (rank : nat -> nat),
+  (forall a b, ReverseProofs.requires1 sp a b -> rank b < rank a) -> rank target < length sp ->
+  forall n, ReverseProofs.needs sp target n -> Reverse.satisfied sp rows n = true -> In n (Reverse.next_tasks sp rows target).
+Proof. exact ReverseProofs.next_complete. Qed.
+Print Assumptions C01_reverse_nothing_forgotten.
